@@ -90,6 +90,31 @@ def rand_bytes(rng, n):
     return (b"\x00\xff\r\n\r\n" * (n // 6 + 1))[:n]
 
 
+def wsdl_two_ops(location):
+    """three operations: f and g with their own soapAction, h without a soap:operation"""
+    W, T = wsdlkit.WNS, wsdlkit.TNS
+    w = ['<?xml version="1.0"?><wsdl:definitions targetNamespace="%s" xmlns:wsdl="http://schemas.xmlsoap.org/wsdl/" '
+         'xmlns:w="%s" xmlns:x="%s" xmlns:soap="http://schemas.xmlsoap.org/wsdl/soap/" '
+         'xmlns:xsd="http://www.w3.org/2001/XMLSchema"><wsdl:types><xsd:schema targetNamespace="%s" '
+         'elementFormDefault="qualified">' % (W, W, T, T)]
+    for m in "fgh":
+        w.append('<xsd:element name="%s"><xsd:complexType><xsd:sequence/></xsd:complexType></xsd:element>' % m)
+    w.append('</xsd:schema></wsdl:types>')
+    for m in "fgh":
+        w.append('<wsdl:message name="%sIn"><wsdl:part name="p" element="x:%s"/></wsdl:message>' % (m, m))
+    w.append('<wsdl:portType name="PT">')
+    for m in "fgh":
+        w.append('<wsdl:operation name="%s"><wsdl:input message="w:%sIn"/></wsdl:operation>' % (m, m))
+    w.append('</wsdl:portType><wsdl:binding name="B" type="w:PT"><soap:binding style="document" '
+             'transport="http://schemas.xmlsoap.org/soap/http"/>')
+    for m in "fgh":
+        sop = '<soap:operation soapAction="urn:act:%s"/>' % m if m != "h" else ""
+        w.append('<wsdl:operation name="%s">%s<wsdl:input><soap:body use="literal"/></wsdl:input></wsdl:operation>' % (m, sop))
+    w.append('</wsdl:binding><wsdl:service name="S"><wsdl:port name="P" binding="w:B"><soap:address location="%s"/>'
+             '</wsdl:port></wsdl:service></wsdl:definitions>' % location)
+    return "".join(w).encode()
+
+
 def run(ctx):
     import suds.transport
     import suds.transport.http
@@ -105,8 +130,13 @@ def run(ctx):
             headers = {"Content-Type": "text/xml; charset=utf-8", "SOAPAction": '"urn:a"'}
             for _h in range(rng.randint(0, 3)):
                 headers["X-%s" % rng.choice(["A", "b-c", "Tok_1", "Z9"])] = rng.choice(["v", "a b", "x;y=z", ""])
+            # field names and content-coding values are case-insensitive; x-gzip = gzip (RFC 7230 3.2, RFC 7231 3.1.2.1)
+            ce_req_name = rng.choice(["Content-Encoding", "Content-Encoding", "content-encoding", "CONTENT-ENCODING"])
+            ce_label = ce
             if ce:
-                headers["Content-Encoding"] = ce
+                ce_label = rng.choice({"gzip": ["gzip", "gzip", "GZIP", "x-gzip", "Gzip"],
+                                       "deflate": ["deflate", "deflate", "Deflate", "DEFLATE"]}.get(ce, [ce]))
+                headers[ce_req_name] = ce_label
             resp_body = rand_bytes(rng, rng.choice([0, 10, 3000]))
             rce = rng.choice([None, None, "gzip", "deflate", "gzip-multi", "gzip-empty"])
             if rce == "gzip-multi":
@@ -117,13 +147,26 @@ def run(ctx):
                 resp_body, wire = b"", b""
             else:
                 wire = resp_body if rce is None else (gzip.compress(resp_body) if rce == "gzip" else zlib.compress(resp_body))
-            rh = [("Content-Encoding", "gzip" if rce and rce.startswith("gzip") else rce)] if rce else []
+            # header field names are case-insensitive (RFC 7230 3.2): the server may spell them any way
+            ce_name = rng.choice(["Content-Encoding", "Content-Encoding", "content-encoding", "CONTENT-ENCODING",
+                                  "Content-encoding"])
+            rce_label = None
+            if rce:
+                rce_label = rng.choice(["gzip", "gzip", "GZIP", "x-gzip"] if rce.startswith("gzip") else
+                                       ["deflate", "deflate", "Deflate"])
+            rh = [(ce_name, rce_label)] if rce else []
             srv.httpd.plan = lambda h, wire=wire, rh=rh: {"status": 200, "body": wire, "headers": rh}
             t = suds.transport.http.HttpTransport()
             req = suds.transport.Request(srv.url(), msg)
             req.headers = dict(headers)
             del srv.httpd.seen[:]
-            meta = {"len": n, "content_encoding": ce, "response_encoding": rce, "headers": headers}
+            meta = {"len": n, "content_encoding": ce, "response_encoding": rce, "headers": headers,
+                    "response_header": [ce_name, rce_label] if rce else None}
+            ctx.dist["coding-label:request=%s" % ("plain" if not ce else "canonical" if (ce_req_name, ce_label) ==
+                                                     ("Content-Encoding", ce) else "other-spelling")] += 1
+            ctx.dist["coding-label:response=%s" % ("plain" if not rce else "canonical" if (ce_name, rce_label) in
+                                                      (("Content-Encoding", "gzip"), ("Content-Encoding", "deflate"))
+                                                      else "other-spelling")] += 1
             ctx.case(common.digest([meta, rng.random()]), bool(ce or rce or n > 1000 or len(headers) > 2))
             try:
                 reply = t.send(req)
@@ -171,6 +214,76 @@ def run(ctx):
             want = [('"%s"' % action).encode("utf-8")]
             if raw != want:
                 ctx.fail("the SOAPAction of the WSDL does not reach the server (UTF-8) exactly once", meta, raw, want)
+        # ---- one client, several operations and header settings in sequence: every request carries the SOAPAction of
+        #      its own operation and the caller's headers as they are set at that moment; the option is not modified
+        wsdl2 = wsdl_two_ops(srv.url("/seq"))
+        for _ in range(ctx.pick(6, 60)):
+            srv.httpd.plan = lambda h: {"status": 200, "body": b""}
+            user_headers = {}
+            c = wsdlkit.client(wsdl2, transport=suds.transport.http.HttpTransport(), headers=user_headers)
+            hist = []
+            for step in range(rng.randint(2, 6)):
+                opn = rng.choice(["f", "g", "h"])
+                if rng.random() < 0.4:
+                    user_headers = rng.choice([{}, {"X-Tok": "t%d" % step}, {"SOAPAction": '"urn:forced"'},
+                                               {"Content-Type": "application/soap+xml", "X-Q": "q"}])
+                    c.set_options(headers=user_headers)
+                before = dict(user_headers)
+                del srv.httpd.seen[:]
+                hist.append([opn, before])
+                ctx.case(("opseq", common.canon(hist)), True)
+                try:
+                    getattr(c.service, opn)()
+                except Exception as e:
+                    ctx.fail("a call in a sequence of operations failed", {"history": hist}, repr(e), "a request")
+                    break
+                seen = srv.httpd.seen[-1] if srv.httpd.seen else None
+                want = {"SOAPAction": '"urn:act:%s"' % opn if opn != "h" else '""',
+                        "Content-Type": "text/xml; charset=utf-8"}
+                want.update(before)
+                got = {k: hdr(seen, k) for k in want} if seen else None
+                if got != {k: [v] for k, v in want.items()}:
+                    ctx.fail("a request in a sequence does not carry its own SOAPAction / the caller's current headers",
+                             {"history": hist}, got, want)
+                    break
+                if user_headers != before or c.options.headers != before:
+                    ctx.fail("sending a request modified the caller's headers option", {"history": hist},
+                             [user_headers, c.options.headers], before)
+                    break
+        # ---- challenge-response credentials (transport.https): the server asks (401 + WWW-Authenticate) and recovers
+        #      the credentials configured at the time of each request, also after they were changed
+        def challenge(h):
+            if h.headers.get("Authorization"):
+                return {"status": 200, "body": b"<ok/>"}
+            return {"status": 401, "body": b"<denied/>", "headers": [("WWW-Authenticate", 'Basic realm="r"')]}
+        for _ in range(ctx.pick(10, 150)):
+            t = suds.transport.https.HttpAuthenticated()
+            path = "/cr%d" % rng.randint(0, 2)
+            hist = []
+            for step in range(rng.randint(1, 4)):
+                user, pw = rng.choice(["alice", "bob", "u-%d" % step, "ü"]), rng.choice(["s3cret", "", "p w", "€%d" % step])
+                t.options.username, t.options.password = user, pw
+                srv.httpd.plan = challenge
+                del srv.httpd.seen[:]
+                hist.append([user, pw])
+                ctx.case(("challenge", path, common.canon(hist)), True)
+                try:
+                    t.send(suds.transport.Request(srv.url(path), b"<m/>"))
+                except Exception as e:
+                    ctx.fail("challenge-response exchange failed", {"history": hist}, repr(e), "a reply")
+                    break
+                auth = hdr(srv.httpd.seen[-1], "Authorization") if srv.httpd.seen else []
+                rec = None
+                if len(auth) == 1 and auth[0].startswith("Basic "):
+                    try:
+                        u, _, p_ = base64.b64decode(auth[0][6:], validate=True).decode("utf-8").partition(":")
+                        rec = [u, p_]
+                    except Exception as e:
+                        rec = ["undecodable", repr(e)[:40]]
+                if rec != [user, pw]:
+                    ctx.fail("server does not recover the configured username and password after its challenge",
+                             {"history": hist}, [auth, rec], [user, pw])
+                    break
         # ---- proxy option: followed at every request, also when changed after the first one
         proxy = Server()
         try:
@@ -354,6 +467,18 @@ def witness(ctx, k):
     w = k["witness"]
     srv = Server()
     try:
+        if w.get("kind") == "coding-label-case":
+            body = b"<r>payload</r>"
+            srv.httpd.plan = lambda h: {"status": 200, "body": gzip.compress(body),
+                                        "headers": [("Content-Encoding", w["response_label"])]}
+            req = suds.transport.Request(srv.url(), b"<m>request</m>")
+            req.headers = {w["request_name"]: "gzip"}
+            reply = suds.transport.http.HttpTransport().send(req)
+            try:
+                sent_ok = gzip.decompress(srv.httpd.seen[-1]["body"]) == b"<m>request</m>"
+            except Exception:
+                sent_ok = False
+            return reply.message != body or not sent_ok
         t = suds.transport.http.HttpAuthenticated(username=w["user"], password=w["password"])
         t.send(suds.transport.Request(srv.url(), b"<m/>"))
         auth = hdr(srv.httpd.seen[-1], "Authorization")[0][6:]
